@@ -1,0 +1,49 @@
+// Verification hooks.  This module and every call into it are only compiled with
+// `--cfg cadence_verif`; without that flag the crate is exactly what it was.
+//
+// A test harness can install a callback that is invoked at named points of the
+// queuing sink's producer/worker protocol and around the critical sections of the
+// buffered sinks.  The callback may block the calling thread: that is how a
+// controlled scheduler drives the library through a chosen interleaving.
+
+use std::sync::{Arc, RwLock};
+
+/// The installable callback; its argument names the point that was reached.
+pub type Hook = Arc<dyn Fn(&'static str) + Send + Sync>;
+
+static HOOK: RwLock<Option<Hook>> = RwLock::new(None);
+
+/// Install `hook`; it is called at every verification point from then on.
+pub fn install(hook: Hook) {
+    *HOOK.write().unwrap_or_else(|e| e.into_inner()) = Some(hook);
+}
+
+/// Remove the installed callback, if any.
+pub fn uninstall() {
+    *HOOK.write().unwrap_or_else(|e| e.into_inner()) = None;
+}
+
+/// Report that the calling thread reached `site`.
+#[inline]
+pub fn point(site: &'static str) {
+    let hook = HOOK.read().unwrap_or_else(|e| e.into_inner()).clone();
+    if let Some(hook) = hook {
+        hook(site);
+    }
+}
+
+/// Reports `enter` when created and `exit` when dropped.
+pub struct Scope(&'static str);
+
+impl Scope {
+    pub fn new(enter: &'static str, exit: &'static str) -> Scope {
+        point(enter);
+        Scope(exit)
+    }
+}
+
+impl Drop for Scope {
+    fn drop(&mut self) {
+        point(self.0);
+    }
+}
